@@ -1,6 +1,6 @@
 (* C18 — the wait-for graph obligation on the generated table (Gen/Locksets.v: nesting, waits, covers),
    discharged by computation, and what it gives on the machine with waits. Recompiled at every run. *)
-From V Require Import Model.C18_Table Model.C18_Conc Model.C18_Wait Model.C18_Glue Gen.Locksets
+From V Require Import Model.C18_Table Model.C18_Exempt Model.C18_Conc Model.C18_Wait Model.C18_Glue Gen.Locksets
   Proofs.C18_Wait Proofs.C18_WaitGlue.
 
 (* (stated on the unfolded form: every use below then matches syntactically, no conversion has to evaluate the test) *)
@@ -25,4 +25,7 @@ Lemma table_covers_waits_l : wait_coverage_okb waits members = true.
 Proof. vm_compute. reflexivity. Qed.
 
 Lemma waited_goroutines_always_started_l : started_okb launches closers chan_waits = true.
+Proof. vm_compute. reflexivity. Qed.
+
+Lemma untracked_shared_fields_l : untracked_shared shared_exemptions shared_untracked = [].
 Proof. vm_compute. reflexivity. Qed.
